@@ -161,6 +161,17 @@ def load_known():
         return []
 
 
+def _p(*a, **kw):
+    try:
+        print(*a, **kw)
+        sys.stdout.flush()
+    except BrokenPipeError:
+        try:
+            sys.stdout = open(os.devnull, "w")
+        except Exception:
+            pass
+
+
 def _worker(mod, args):
     shard, nshards = args.worker
     ctx = Ctx(mod.PID, args.tier, args.seed, shard, nshards)
@@ -248,7 +259,7 @@ def main(mod):
             with open(args.replay) as f:
                 w = json.load(f)
             seed, tier, case = w["seed"], w["tier"], w["case"]
-            print("replaying %s case %r (seed %d, tier %s): recorded as [%s] %s" % (
+            _p("replaying %s case %r (seed %d, tier %s): recorded as [%s] %s" % (
                 w["property"], case, seed, tier, w["mechanism"], w["what"]))
         else:
             seed, tier, case = args.seed, args.tier, args.case
@@ -261,10 +272,10 @@ def main(mod):
         elif hasattr(mod, "replay_special"):
             mod.replay_special(ctx, case)
         else:
-            print("case %r is produced by parent-side work; re-run the whole check" % (case,))
+            _p("case %r is produced by parent-side work; re-run the whole check" % (case,))
         if hasattr(mod, "teardown_shard"):
             mod.teardown_shard(ctx)
-        print("replay finished: %d violation(s) %s" % (
+        _p("replay finished: %d violation(s) %s" % (
             sum(ctx.violation_counts.values()), dict(ctx.violation_counts)))
         return sys.exit(1 if ctx.violation_counts else 0)
 
@@ -346,12 +357,12 @@ def main(mod):
         inconclusive.append("only %d of %d planned cases ran" % (merged["evaluations"], plan["cases"]))
 
     for m in seen_known:
-        print("KNOWN-FINDING: property=%s %s [mechanism=%s, seen %d time(s) in this run]" % (
+        _p("KNOWN-FINDING: property=%s %s [mechanism=%s, seen %d time(s) in this run]" % (
             mod.PID, known_mechs[m]["what"], m, merged["violation_counts"][m]))
     # listed known findings are always announced, even if this run's sample did not hit them
     for m, k in known_mechs.items():
         if m not in seen_known:
-            print("KNOWN-FINDING: property=%s %s [mechanism=%s, not exercised by this run's sample]" % (
+            _p("KNOWN-FINDING: property=%s %s [mechanism=%s, not exercised by this run's sample]" % (
                 mod.PID, k["what"], m))
 
     replay_paths = []
@@ -368,8 +379,8 @@ def main(mod):
             replay_paths.append(path)
             if v["mechanism"] not in done:
                 done.add(v["mechanism"])
-                print("VIOLATION property=%s replay=%s" % (mod.PID, path))
-                print("  mechanism=%s count=%d: %s" % (v["mechanism"], merged["violation_counts"][v["mechanism"]], v["what"]))
+                _p("VIOLATION property=%s replay=%s" % (mod.PID, path))
+                _p("  mechanism=%s count=%d: %s" % (v["mechanism"], merged["violation_counts"][v["mechanism"]], v["what"]))
 
     wall = time.time() - t0
     verdict = "violated" if new_mechs else ("inconclusive" if inconclusive else "held")
@@ -399,17 +410,17 @@ def main(mod):
         note = _validate_evidence(ev)
     except Exception as e:
         note = "EVIDENCE INVALID: %s" % str(e)[:300]
-        print(note)
+        _p(note)
     with open(os.path.join(OUT, "evidence", "%s.json" % mod.PID), "w") as f:
         json.dump(ev, f, indent=1)
-    print("%s tier=%s seed=%d: %s — %d evaluations, %d distinct non-trivial, %.1fs [evidence %s]" % (
+    _p("%s tier=%s seed=%d: %s — %d evaluations, %d distinct non-trivial, %.1fs [evidence %s]" % (
         mod.PID, args.tier, args.seed, verdict, merged["evaluations"], nontrivial, wall, note))
     keys = sorted(merged["counters"].items())
-    print("  observed: " + ", ".join("%s=%d" % kv for kv in keys[:40]))
+    _p("  observed: " + ", ".join("%s=%d" % kv for kv in keys[:40]))
     if new_mechs:
         sys.exit(1)
     if inconclusive:
         for r in inconclusive:
-            print("INCONCLUSIVE property=%s reason=%s" % (mod.PID, r))
+            _p("INCONCLUSIVE property=%s reason=%s" % (mod.PID, r))
         sys.exit(2)
     sys.exit(0)
